@@ -1512,8 +1512,71 @@ pub fn fam_shadow_narrowed(r: &mut Rng) -> Vec<Prog> {
     }]
 }
 
+/// set by `main` from `caller_variables_opaque`: an unrepaired compiler overflows its stack on
+/// crosswise shared-name generic calls, which no handler can catch
+pub static SHARED_NAMES_OK: std::sync::atomic::AtomicBool = std::sync::atomic::AtomicBool::new(false);
+
+/// A generic function calling another generic function whose type parameters have the SAME names,
+/// with its own fields passed in a permuted order, and parameters that are unions mentioning the
+/// variables (`'b | 'bin`): the callee's variables must not be confused with the caller's (repair
+/// 10; seeded change C18-6 is an early-exit variant of the old self-binding check).
+pub fn fam_generic_shared(r: &mut Rng) -> Vec<Prog> {
+    if !SHARED_NAMES_OK.load(std::sync::atomic::Ordering::Relaxed) {
+        return vec![];
+    }
+    let mut g = G::new(r);
+    let field = |g: &mut G| -> &'static str {
+        ["'a", "'b", "'b | 'bin", "'a | 'int", "'a | 'b", "['a, 'b]", "'int", "A['b]"][g.r.usize(8)]
+    };
+    let n = 2 + g.r.usize(2);
+    let mut p0: Vec<&str> = (0..n).map(|_| field(&mut g)).collect();
+    // gate (finding N19): a callee parameter WITHOUT type variables is checked by is_compatible,
+    // which takes a type variable of the caller for assignable to anything
+    if !p0.iter().any(|f| f.contains("'a") || f.contains("'b")) {
+        p0[0] = "'a";
+    }
+    let p1: Vec<&str> = (0..n).map(|_| field(&mut g)).collect();
+    let mut perm: Vec<usize> = (0..n).collect();
+    g.r.shuffle(&mut perm);
+    let k0 = g.r.usize(n);
+    let body1 = match g.r.below(4) {
+        0 => format!("[{}] f0", perm.iter().map(|i| format!("${i}")).collect::<Vec<_>>().join(", ")),
+        1 => format!("[{}] f0 =r, [r, $0]", perm.iter().map(|i| format!("${i}")).collect::<Vec<_>>().join(", ")),
+        2 => "$ f0".to_string(),
+        _ => format!("[{}] f0", (0..n).map(|i| if i == 0 { "1".to_string() } else { format!("${}", perm[i]) }).collect::<Vec<_>>().join(", ")),
+    };
+    let same = g.r.chance(4, 5);
+    let (v0, p0s): (&str, String) = if same {
+        ("<'a, 'b>", p0.join(", "))
+    } else {
+        ("<'c, 'd>", p0.join(", ").replace("'a", "'c").replace("'b", "'d"))
+    };
+    g.feats.insert(if same { "generic-shared:same-names".into() } else { "generic-shared:distinct-names".into() });
+    let lits = ["0xff", "1", "A[2]", "[3, 0x01]", "0x", "7"];
+    let args: Vec<Arg> = (0..3)
+        .map(|_| {
+            let a: Vec<&str> = (0..n).map(|_| lits[g.r.usize(lits.len())]).collect();
+            Arg { src: format!("[{}]", a.join(", ")), aligned_src: None, note: String::new() }
+        })
+        .collect();
+    vec![Prog {
+        family: "generic-shared",
+        features: g.feats.clone(),
+        aliases: vec![],
+        guards: vec![],
+        defs: vec![
+            ("f0".into(), t(&format!("#{v0}[{p0s}] {{ ${k0} }}"))),
+            ("f1".into(), t(&format!("#<'a, 'b>[{}] {{ {body1} }}", p1.join(", ")))),
+        ],
+        main: t("{ARG} f1"),
+        args,
+        generic_fn: None,
+        declared_ret: None,
+    }]
+}
+
 pub fn generate(r: &mut Rng) -> Vec<Prog> {
-    match r.below(54) {
+    match r.below(58) {
         0..=7 => fam_dispatch(r),
         8..=11 => fam_variable(r),
         12..=15 => fam_generic(r),
@@ -1529,6 +1592,7 @@ pub fn generate(r: &mut Rng) -> Vec<Prog> {
         42..=45 => fam_permuted(r),
         46..=47 => fam_capture(r),
         48..=50 => fam_concrete_or_partial(r),
-        _ => fam_shadow_narrowed(r),
+        51..=53 => fam_shadow_narrowed(r),
+        _ => fam_generic_shared(r),
     }
 }
